@@ -594,7 +594,7 @@ def validate_traces(scratch, events, trace_module="Trace_Cache", cfg=None, worke
 # behaviours from the labelled state graph that TLC dumped (MC_Cache: EmitInit / EmitEdge)
 # --------------------------------------------------------------------------------------------------------
 class Graph:
-    def __init__(self, json_lines):
+    def __init__(self, json_lines, generated=None):
         self.inits = {}
         self.adj = {}
         self.nedges = 0
@@ -606,6 +606,9 @@ class Graph:
                 self.nedges += 1
         if not self.inits or not self.nedges:
             raise MachineryError("TLC emitted no state graph (%d inits, %d edges)" % (len(self.inits), self.nedges))
+        if generated is not None and generated != len(self.inits) + self.nedges:      # torn / lost output lines
+            raise MachineryError("state graph dump incomplete: TLC generated %d states, %d initial states + %d edges read"
+                                 % (generated, len(self.inits), self.nedges))
         for k in self.adj:
             self.adj[k].sort()
         self.parent = {}                       # BFS tree: node -> (parent node, action, root)
@@ -703,6 +706,34 @@ def _replay_one(beh):
         return {"machinery": "%s: %s\n%s" % (type(ex).__name__, ex, traceback.format_exc())}
 
 
+def _pool_init(root):
+    global _ROOT
+    _ROOT = root
+    import gc
+    gc.freeze()
+
+
+class ReplayPool:
+    """Worker processes that fork the loaders.  Created BEFORE the check loads state graphs, so that the workers
+    (and every loader forked from them) have a small address space: fork cost is proportional to it."""
+
+    def __init__(self, root, procs=NCPU):
+        import multiprocessing as mp
+        self.root = root
+        self.pool = mp.get_context("fork").Pool(procs, initializer=_pool_init, initargs=(root,))
+
+    def replay(self, behs, chunksize=8):
+        out = self.pool.map(_replay_one, list(behs), chunksize=chunksize)
+        for o in out:
+            if isinstance(o, dict):
+                raise MachineryError("replay failed: " + o["machinery"])
+        return out
+
+    def close(self):
+        self.pool.close()
+        self.pool.join()
+
+
 def replay_all(behs, root, procs=NCPU, chunksize=8):
     """Replay every behaviour (each in its own data home under root); returns the list of event lists."""
     global _ROOT
@@ -711,10 +742,88 @@ def replay_all(behs, root, procs=NCPU, chunksize=8):
     if procs <= 1 or len(behs) < 8:
         out = [_replay_one(b) for b in behs]
     else:
-        import multiprocessing as mp
-        with mp.get_context("fork").Pool(procs) as pool:
-            out = pool.map(_replay_one, behs, chunksize=chunksize)
+        rp = ReplayPool(root, procs)
+        try:
+            return rp.replay(behs, chunksize)
+        finally:
+            rp.close()
     for o in out:
         if isinstance(o, dict):
             raise MachineryError("replay failed: " + o["machinery"])
     return out
+
+
+# --------------------------------------------------------------------------------------------------------
+# several bounded instances side by side (each TLC in its own working directory)
+# --------------------------------------------------------------------------------------------------------
+def run_models(check, jobs, parallel=4):
+    """jobs: list of dicts {module, cfg, modules: [files to copy from spec/mc], coverage, require_actions, simulate,
+    depth, workers, timeout}.  Same bookkeeping and the same rules as driver.Check.model (a counterexample or an
+    error on the model itself is a machinery error; vacuity guard on the coverage counts)."""
+    from concurrent.futures import ThreadPoolExecutor
+
+    def one(k):
+        j = jobs[k]
+        wd = check.scratch.path("model-%d" % k)
+        os.makedirs(wd, exist_ok=True)
+        for m in j.get("modules", [j["module"]]):
+            shutil.copy(os.path.join(vlib.SPEC, "mc", m + ".tla"), os.path.join(wd, m + ".tla"))
+        for extra in j.get("files", []):
+            shutil.copy(extra, wd)
+        cfgp = j["cfg"] if os.path.isabs(j["cfg"]) else os.path.join(vlib.SPEC, "mc", j["cfg"])
+        r = vlib.run_tlc(wd, j["module"], cfgp, workers=j.get("workers", max(2, NCPU // 2)), timeout=j.get("timeout", 3000),
+                         coverage=j.get("coverage", False), simulate=j.get("simulate"), depth=j.get("depth"),
+                         seed=check.seed if j.get("simulate") else None, heap=j.get("heap", "6g"),
+                         env=j.get("env"), extra=j.get("extra"))
+        return r
+
+    with ThreadPoolExecutor(parallel) as ex:
+        results = list(ex.map(one, range(len(jobs))))
+    for j, r in zip(jobs, results):
+        if not j.get("allow_violation"):
+            vlib.tlc_ok(r, "%s/%s" % (j["module"], os.path.basename(j["cfg"])))
+        check.states += r.distinct
+        check.transitions += r.generated
+        check.model_runs.append({"module": j["module"], "cfg": os.path.basename(j["cfg"]), "distinct_states": r.distinct,
+                                 "states_generated": r.generated, "depth": r.depth, "wall_s": round(r.wall, 1),
+                                 "emitted": len(r.json_lines), "violated": r.violated})
+        for a in j.get("require_actions", ()):
+            if r.coverage.get(a, 0) == 0:
+                raise MachineryError("vacuous: action %s never taken in %s/%s" % (a, j["module"], j["cfg"]))
+    return results
+
+
+# --------------------------------------------------------------------------------------------------------
+# independent events judged in ONE TLC run (clauses may compare an event with the others): C18
+# --------------------------------------------------------------------------------------------------------
+def validate_independent(scratch, events, trace_module="Trace_Registry", cfg=None, workers=NCPU, timeout=3600, tag="ev",
+                         per_part=None):
+    agg = TLCResult()
+    if not events:
+        return {}, agg
+    for i, e in enumerate(events):
+        e["id"] = i + 1
+    n = len(events)
+    path = scratch.path("%s-trace.json" % tag)
+    with open(path, "w") as f:
+        json.dump(events, f, separators=(",", ":"))
+    wd = scratch.path("%s-judge" % tag)
+    os.makedirs(wd, exist_ok=True)
+    cfgp = os.path.join(wd, "trace.cfg")
+    with open(cfgp, "w") as f:
+        f.write(cfg or "INIT TraceInit\nNEXT TraceNext\nINVARIANT Judge\nCHECK_DEADLOCK FALSE\n")
+    shutil.copy(os.path.join(vlib.SPEC, "trace", trace_module + ".tla"), os.path.join(wd, trace_module + ".tla"))
+    chunk = max(1, (n + 2 * workers - 1) // (2 * workers))
+    r = vlib.run_tlc(wd, trace_module, cfgp, workers=workers, timeout=timeout,
+                     env={"TRACE_FILE": path, "TRACE_CHUNK": str(chunk)}, heap="3g")
+    if r.error or r.violated or r.rc != 0:
+        raise MachineryError("trace validation (%s): rc=%s violated=%s %s\n%s" % (
+            trace_module, r.rc, r.violated, r.error, r.stdout[-3000:]))
+    verdicts = {}
+    for m in _RE_VERDICT.finditer(r.stdout):
+        verdicts[int(m.group(1))] = sorted(re.findall(r'"([^"]*)"', m.group(2)))
+    if len(verdicts) != n or r.distinct != n + 1:
+        raise MachineryError("trace validation (%s): %d events, %d verdicts, %d states" % (
+            trace_module, n, len(verdicts), r.distinct))
+    agg.distinct, agg.generated, agg.wall = r.distinct, r.generated, r.wall
+    return verdicts, agg
